@@ -30,14 +30,15 @@ RULE = ("(a) enumerated delivery patterns through a real node's update(): messag
         "drop-dup patterns) arriving at a queue that already holds 5 or 6 (= max_queue_size) whole messages of another sender, three senders "
         "round-robin, stray MORE/LAST with no FIRST (incl. ids equal to the node's freshly built cache), each with every "
         "dequeue position; node roles: network node at levels 0..2 and mesh master; (b) seeded full-stack runs: 2-3 child "
-        "senders writing fragmented messages (a quarter of them up to 168 bytes, a quarter re-using one frame id for two messages) "
+        "senders (in a third of the runs one of them a level further down, its fragments forwarded and answered with NETWORK_ACKs) writing fragmented messages (a quarter of them up to 168 bytes, a quarter re-using one frame id for two messages) "
         "concurrently with coinciding or different frame ids under packet/ACK loss. "
+        "(c) a sender's two consecutive fragmented multicasts with library-assigned frame ids, 0..4096 headers created in between, the first losing its LAST and the second its FIRST fragment. "
         "Non-trivial: at least two fragment frames reached the node; distinct = distinct arrival sequences x dequeue position")
 ASSUMPTIONS = ["reference fragmenter checks/netref.fragment (TMRh20 numbering)", "chip model M4 (fresh PID per injected frame)",
                "nothing is claimed about which messages get through"]
 CLAUSES = {"intact": "byte-for-byte one complete message that some node actually sent to it, with its type and origin",
            "at_most_once": "one transmitted message is delivered at most once"}
-PROBES = ["stream_met_full_queue"]
+PROBES = ["stream_met_full_queue", "pair_with_targeted_losses"]
 SHRINK_KEYS = ("seq", "faults")
 CHUNK = 100
 _ENUM = {}
@@ -162,8 +163,11 @@ def _enum(tier):
     return out
 
 
+NPAIR = 60
+
+
 def count(tier):
-    return len(_enum(tier)) * 2 + (300 if tier == "quick" else 6000)
+    return len(_enum(tier)) * 2 + (300 if tier == "quick" else 6000) + (NPAIR if tier == "quick" else 20 * NPAIR)
 
 
 def exhaustive(tier):
@@ -182,8 +186,21 @@ def make(i, base_seed, tier):
         role = ROLES[(i // len(en)) * 2 + (i % 2)] if i >= len(en) else ROLES[i % 2 * 3 % 4]
         return {"seed": seed, "layer": "a", "role": list(role), "streams": st, "seq": [list(x) for x in seq], "deq": deq, "prefill": pre,
                 "kind": kind, "faults": []}
-    # ---- (b) full stack
     kr = stream(seed, "knobs")
+    if i >= 2 * len(en) + (300 if tier == "quick" else 6000):
+        # ---- (c) a sender's two consecutive fragmented multicasts (unacknowledged, so the tail of a message goes out whatever
+        # became of its head) with a seeded number of headers created in between, the first message losing its LAST fragment and
+        # the second its FIRST: the listener must deliver neither - above all not the second's tail spliced onto the first's head.
+        # (frame ids are the library's own: the sender's counter is seeded; 65 536 headers in between would legitimately repeat the id)
+        pr = stream(seed, "pair")
+        fa, fb = pr.randint(2, 4), pr.randint(2, 4)
+        return {"seed": seed, "layer": "c", "kind": "mcast_pair", "between": pr.choice([0, 0, 1, 255, 256, 511, 4095, 4096]),
+                "next_id": pr.choice([0, 1, 0xFF, 0xFFFE, 0xFFFF, pr.getrandbits(16)]), "sender": pr.choice([0o1, 0o3, 0o5]),
+                "msgs": [{"len": 24 * fa - pr.randint(0, 20), "type": pr.randint(0, 127), "seed": pr.getrandbits(20), "nfr": fa},
+                         {"len": 24 * fb - pr.randint(0, 20), "type": pr.randint(0, 127), "seed": pr.getrandbits(20), "nfr": fb}],
+                "lose": pr.choice(["A_last+B_first", "A_last+B_first", "A_last", "B_first", "none"]),
+                "knobs": random_mcu_knobs(kr, stalls=False), "recv_knobs": random_mcu_knobs(kr, stalls=False), "faults": []}
+    # ---- (b) full stack
     recv = rng.choice([0, 0o1, 0o2])
     lv = netref.level(recv)
     kids = rng.sample(range(1, 6), rng.randint(2, 3))
@@ -201,6 +218,13 @@ def make(i, base_seed, tier):
         if x.random() < 0.25:     # the sender's messages re-use one header (same frame id); direct children only send fragment k+1
             senders[-1]["reuse_id"] = True   # after fragment k was acknowledged, so a later message's FIRST always precedes its tail
             senders[-1]["n"] = 2
+    zr = stream(seed, "routed")
+    if lv < 2 and zr.random() < 0.3:
+        # one sender sits a level further down: its fragments are forwarded by a sibling of the other senders, and every one of them is
+        # answered with a NETWORK_ACK - which belongs in nobody's queue
+        par = senders[0]["addr"]
+        senders.append({"addr": par | (zr.randint(1, 5) << (3 * (lv + 1))), "fid": zr.getrandbits(16), "len": zr.randint(25, 100), "type": zr.randint(0, 127),
+                        "seed": zr.getrandbits(20), "n": 1, "knobs": random_mcu_knobs(kr, stalls=False), "delay_us": zr.randint(0, 3000)})
     ar = stream(seed, "air")
     p = rng.choice([0.0, 0.05, 0.1, 0.2])
     return {"seed": seed, "layer": "b", "recv": recv, "recv_knobs": random_mcu_knobs(kr, stalls=False), "senders": senders,
@@ -213,6 +237,8 @@ def run(scn):
     try:
         if scn["layer"] == "a":
             _run_a(scn, w, res)
+        elif scn["layer"] == "c":
+            _run_c(scn, w, res)
         else:
             _run_b(scn, w, res)
     except SimAbort:
@@ -348,13 +374,58 @@ def _run_b(scn, w, res):
     delivered = [(e[1], e[3], e[4]) for e in net.nodes[recv].log]
     _judge(res, delivered, sent, "fullstack")
     for k, nc in net.nodes.items():
-        if k != recv and k not in chain:
-            continue
         if k != recv and nc.log:
             res.add("intact", {"kind": "foreign_queue"}, "node %o dequeued %d frames addressed to %o" % (k, len(nc.log), recv))
     res.nontrivial = len(w.air.trace) > 4
     res.sample = {"layer": "b", "recv": oct(recv), "senders": [(oct(s["addr"]), s["fid"], s["len"], s["n"]) for s in scn["senders"]],
                   "faults": len(scn["faults"]), "delivered": len(delivered)}
+
+
+def _run_c(scn, w, res):
+    sim = w.sim
+    net = Net(w)
+    snd = scn["sender"]
+    net.add(0, "net", 0, knobs=scn["recv_knobs"])
+    nc = net.add(snd, "net", snd, knobs=scn["knobs"])
+    nc.mcu.next_id = scn["next_id"]
+    net.nodes[0].no_read = True        # the listener's application reads at the end
+    msgs = [(m["type"], payload(m["seed"], m["len"])) for m in scn["msgs"]]
+    fa = scn["msgs"][0]["nfr"]
+    lose = scn["lose"]
+    rules = []
+    if "A_last" in lose:
+        rules.append({"src": "n%s" % snd, "ack": False, "nth": fa - 1})
+    if "B_first" in lose:
+        rules.append({"src": "n%s" % snd, "ack": False, "nth": fa})
+    w.air.plan.rules.extend(rules)
+    net.start()
+    sim.advance(3 * MS)
+
+    def do(node):
+        from circuitpython_nrf24l01.network.structs import RF24NetworkHeader
+        out = [node.multicast(msgs[0][1], msgs[0][0], 0)]
+        for _ in range(scn["between"]):
+            RF24NetworkHeader(0o2, 1)          # headers of other traffic the application prepared meanwhile
+        out.append(node.multicast(msgs[1][1], msgs[1][0], 0))
+        return out
+    c = net.call(snd, "multicast_pair", do, timeout=10_000 * MS)
+    net.wait_quiet(quiet=10 * MS, timeout=3000 * MS)
+    net.nodes[0].no_read = False
+    net.call(0, "read_all", lambda node: None, timeout=1000 * MS)
+    net.shutdown()
+    if not c.done or c.exc is not None:
+        res.add("intact", {"kind": "multicast_raised_or_hung", "exc": type(c.exc).__name__}, "multicast() %r" % (c.exc,))
+        return
+    sent = [(snd, t, d) for (t, d) in msgs]
+    delivered = [(e[1], e[3], e[4]) for e in net.nodes[0].log]
+    _judge(res, delivered, sent, "mcast_pair")
+    for k, nd in net.nodes.items():
+        if k != 0 and nd.log:
+            res.add("intact", {"kind": "foreign_queue"}, "node %o dequeued %d frames" % (k, len(nd.log)))
+    if rules:
+        sim.count("pair_with_targeted_losses")
+    res.nontrivial = len(w.air.trace) >= 4
+    res.sample = {"layer": "c", "between": scn["between"], "next_id": scn["next_id"], "lose": lose, "delivered": [(oct(d[0]), d[1], len(d[2])) for d in delivered]}
 
 
 def same_class(a, b):
